@@ -99,6 +99,7 @@ type sWriter struct {
 	rejected []*msgstream.MsgPack
 	events   []*coreapi.ReplicateAPIEvent
 	ops      []*msgstream.MsgPack
+	onEvent  func(ev *coreapi.ReplicateAPIEvent) // called when a request reaches the downstream (accepted or not)
 }
 
 var errWriter = errors.New("downstream rejects the request")
@@ -114,6 +115,9 @@ func (w *sWriter) HandleReplicateMessage(ctx context.Context, channelName string
 }
 
 func (w *sWriter) HandleReplicateAPIEvent(ctx context.Context, ev *coreapi.ReplicateAPIEvent) error {
+	if w.onEvent != nil {
+		w.onEvent(ev)
+	}
 	if w.canFail && vBool("writer.rejects-event") {
 		return errWriter
 	}
